@@ -35,15 +35,15 @@ VERUS = "contract-based deductive verification (Verus/Z3) of the real functions 
 BND = "bounded exhaustive enumeration on the real crates as stand-in for what Verus cannot take"
 
 PROPS = {
-    "C01": P("proof", ["state"], [],
+    "C01": P("proof", ["state"], ["obs"],
         "Verus discharges the contracts of every function of state.rs: poll_update is ready exactly when version==0 or observed<version, marks the value observed, otherwise stays pending and changes nothing else; set/update always bump the version by one and store the value; set_if_not_eq / set_if_hash_not_eq store+notify+return Some(previous) exactly when ne / hashes differ and otherwise leave the whole state identical; update_if bumps exactly when the closure returned true.",
         "sequential (R-LOCK); handle layer (subscriber.rs/unique.rs/shared.rs wrappers) not yet under contract in this round; PartialEq::ne / hash deterministic; version < u64::MAX",
         VERUS, ["the wrappers in subscriber.rs / unique.rs / shared.rs that forward to state.rs are not yet under contract"]),
-    "C02": P("proof", ["state"], [],
+    "C02": P("proof", ["state"], ["obs"],
         "Sequential obligations only: poll_update returning Pending has pushed a clone of the caller's waker onto the waker list (and only then); every notifying setter and close leave the waker list empty, and the list stand-in can only be emptied through drain(..)/mem::take whose results the code hands to wake().",
         "NO thread schedules (R-LOCK erases them); `wake` itself is R-EXT (its loop over the drained wakers is not verified)",
         VERUS, ["thread interleavings are not decided", "state::wake is trusted (R-EXT)"]),
-    "C03": P("proof", ["state"], [],
+    "C03": P("proof", ["state"], ["obs"],
         "Sequential: poll_update yields None iff version==0; close sets version 0; notifying setters keep an open state open (version>=1 stays >=1).",
         "sequential; Drop of Observable/SharedObservable, upgrade/downgrade and into_shared not yet under contract in this round; concurrent last drops not decided",
         VERUS, ["handle layer (shared.rs/unique.rs Drop, upgrade) not yet under contract", "concurrent last drops are not decided"]),
@@ -91,6 +91,14 @@ PROPS = {
         "Verus proves per diff variant that every prefix of the diffs handle_diff emits keeps the Head/Tail view within the limit (prefixes_bounded, proved equivalent to the for-all-prefixes statement), and that the constructors' initial values respect the bound. The glue is bounded (length checked after every single diff).",
         "stand-ins assumed; " + GLUE,
         VERUS + "; " + BND + " (glue)", [GLUE]),
+    "C16": P("exploration", [], ["obs-async"],
+        "Bounded so far: the same exhaustive handle histories as for C01-C03/C19 are run on the async-lock flavour (every future polled by hand; nothing ever has to wait in these histories) and compared with the same reference model as the sync flavour: same values, readiness, wake-ups, end of stream and counts.",
+        "bounded stand-in; lock waiting (writer woken on release, subscriber polled under a write guard) not yet covered",
+        BND, [BOUNDED_NOTE]),
+    "C19": P("exploration", [], ["obs", "obs-async"],
+        "Bounded so far: after every operation of every enumerated handle history (clone, subscribe, downgrade, upgrade, into_shared, drops; at most 3 owners, 3 subscribers, 2 weak references) observable_count, subscriber_count, strong_count and weak_count reported by every owner equal the model's numbers, for both lock flavours.",
+        "bounded stand-in, exhaustive in the stated scope; handle-count contracts pending",
+        BND, [BOUNDED_NOTE]),
     "C17": P("proof", ["vector"], [],
         "So far: Verus proves for the eleven ObservableVector mutators the plain-vector result and return value, and (R-PANIC) that at every panic site nothing has been changed or sent, and that a normal return implies the index was in range. Transaction mutators and entry traversal pending.",
         "transaction.rs / entry.rs contracts pending in this round",
@@ -106,7 +114,5 @@ NOT_APPLICABLE = {
 }
 # properties whose check is not built yet in this round (kept out of `checks`, listed with the reason)
 PENDING = {
-    "C16": "async-lock units not built yet in this round",
-    "C19": "handle-count unit not built yet in this round",
     "C20": "Kani harnesses not built yet in this round",
 }
